@@ -274,6 +274,7 @@ func buildIntrinsics() map[string]intrinsic {
 	addSyncIntrinsics(m)
 	addMiscIntrinsics(m)
 	addEnvIntrinsics(m)
+	addRegexpIntrinsics(m)
 	return m
 }
 
